@@ -26,8 +26,14 @@ executable('fromfound', found + ['zz.c'], includes=[hdr, inc])
 extra_dist(files=['README.md'], dirs=['docs'])
 generic_file('hidden.txt', dist=False)
 submodule('sub')
+# an optional component whose script gives up: it was read all the same
+try:
+    submodule('optmod')
+except Exception:
+    pass
 ''' + ZOO
 FIXED = ['build.bfg', 'options.bfg', 'sub/build.bfg', 'sub/subsrc.c',
+         'optmod/build.bfg', 'optmod/early.txt',
          'listed.h', 'incdir/i1.h', 'extra/e1.c', 'extra/e2.c',
          'extra/notes.md', 'plat/p_linux.c', 'plat/p_windows.c', 'zz.c',
          'README.md', 'nc/n1.txt', 'nc/n.md'] + ZOO_NAMED
@@ -40,6 +46,9 @@ def files_for(decls):
     f['options.bfg'] = "argument('foo', default='x')\n"
     f['sub/build.bfg'] = "static_library('subl', ['subsrc.c'])\n"
     f['sub/subsrc.c'] = 'int subsrc;\n'
+    f['optmod/build.bfg'] = ("generic_file('early.txt')\n"
+                             "raise RuntimeError('not available')\n")
+    f['optmod/early.txt'] = 'e\n'
     f['listed.h'] = '#define L 1\n'
     f['incdir/i1.h'] = '#define I 1\n'
     f['incdir/skip.txt'] = 'x\n'
